@@ -436,6 +436,12 @@ class Machine:
         if h.cls not in ("SolverReplacement", "SolverReplacementVSA") or not isinstance(e, list):
             return None
         vs = S.spec_vars(e)
+        if not self.dry:
+            try:
+                # what claripy built may not mention every variable of the spec (If(c, a, a) is a)
+                vs = set(self.ast(e).variables)
+            except _Unbuildable:
+                pass
         if not all(v in h.pins for v in vs):
             return None
         f = S.compile_spec(e, self.variables, self.order)
@@ -880,8 +886,11 @@ class Machine:
         cnt = {}
         for x in after:
             cnt[x] = cnt.get(x, 0) + 1
-        missing = [x for x in set(before) if x not in cnt]
-        dup = [x for x in set(before) if cnt.get(x, 0) > 1]
+        cb = {}
+        for x in before:
+            cb[x] = cb.get(x, 0) + 1
+        missing = [x for x in cb if cnt.get(x, 0) < cb[x]]
+        dup = [x for x in cb if cnt.get(x, 0) > cb[x]]
         if missing or dup:
             self.bad("split-conjuncts-differ", h, op, before=len(before), after=len(after), missing=len(missing),
                      duplicated=len(dup))
